@@ -358,7 +358,9 @@ fn format_code_block(
         result.push_str(FN_MAIN_PREFIX);
         let mut need_indent = true;
         for (kind, line) in LineClasses::new(s) {
-            if need_indent {
+            // An empty line stays empty: inside a node that is copied as it is written (a skipped
+            // item) the indentation would survive as trailing white space.
+            if need_indent && !line.is_empty() {
                 result.push_str(&indent.to_string(config));
             }
             result.push_str(&line);
